@@ -282,7 +282,7 @@ theorem handover_then_clean (cfg : Cfg) (rm : Remotes) (name : String) (s : Sys)
 /-! ## non-vacuity -/
 
 /-- a `Remotes` record that is never reached for local phases. -/
-def exRm : Remotes := ⟨fun _ _ w => (w, .error .other), fun _ _ w => (w, .err)⟩
+def exRm : Remotes := ⟨fun _ _ w => (w, .error .other), fun _ _ w => (w, .err), fun _ _ w => w⟩
 
 theorem exRm_respects : RespectsGhost exRm := const_respects _ _
 
